@@ -52,7 +52,10 @@ Definition HX (w : world) : Prop :=
              1 <= sem w x \/ (exists t' m' u, P w t' = UsWakeV m' x u) \/ (exists t', xv t' = Some x)) /\
   (forall x, 0 <= sem w x) /\
   (forall x, pcB (P w x) /\ pcX (P w x)) /\
-  (Z.testbit (word w) 1 = true -> (exists o, own (kof w o) = true) \/ (exists o, xo o = true)).
+  (Z.testbit (word w) 1 = true -> (exists o, own (kof w o) = true) \/ (exists o, xo o = true)) /\
+  (* MU_WRITER_WAITING is never set over an empty queue unless a thread of mu.c owns the spinlock (an enqueuer about
+     to put itself on the queue, a releaser about to clear the bit) *)
+  (Z.testbit (word w) 5 = true -> queue w <> [] \/ exists o, own (kof w o) = true).
 
 (* the general step: queue, waiting flags and semaphores unchanged *)
 Lemma XG w w' t s s' :
@@ -73,9 +76,11 @@ Lemma XG w w' t s s' :
   pcB (t_pc s') -> pcX (t_pc s') ->
   (Z.testbit (word w') 1 = true ->
      own (role_of (t_pc s')) = true \/ (own (role_of (t_pc s)) = false /\ Z.testbit (word w) 1 = true)) ->
+  (Z.testbit (word w') 5 = true ->
+     own (role_of (t_pc s')) = true \/ queue w <> [] \/ (own (role_of (t_pc s)) = false /\ Z.testbit (word w) 5 = true)) ->
   HX w'.
 Proof.
-  intros (H1 & H2 & H3 & H4 & H5 & H6 & H7 & H8 & H9 & H10) Ht Hs E Eq Ew Es C1 C2 C3 C4 C5 C6 C6' C7 C7' C9 C9x C10.
+  intros (H1 & H2 & H3 & H4 & H5 & H6 & H7 & H8 & H9 & H10 & H11) Ht Hs E Eq Ew Es C1 C2 C3 C4 C5 C6 C6' C7 C7' C9 C9x C10 C11.
   destruct (upd_P w w' t s' Ht E) as [Pt Po].
   assert (P w t = t_pc s) as Ps by (unfold P; now rewrite Hs).
   assert (agent_pc (t_pc s') (waiting w t) = true \/
@@ -109,11 +114,16 @@ Proof.
     destruct (H7 x Sx0 Wx) as [S | [(t' & m' & u & Pt') | V]]; [left; exact S | right; left | right; right; exact V].
     exists t', m', u. rewrite Po; [exact Pt'|]. intros ->. rewrite Ps in Pt'. exact (C7' _ _ _ Pt').
   - intros x. rewrite Es. apply H8.
-  - split.
+  - split; [|split].
     + intros x. destruct (Nat.eq_dec x t) as [->|N]; [rewrite Pt; split; [exact C9 | exact C9x] | rewrite Po by exact N; apply H9].
     + intros B. destruct (C10 B) as [O | [O B']].
       * left. exists t. now rewrite kofP, Pt.
       * destruct (H10 B') as [[o Ho] | X]; [left | right; exact X]. exists o. rewrite kofP in *. rewrite Po; [exact Ho|].
+        intros ->. rewrite Ps in Ho. congruence.
+    + intros B. destruct (C11 B) as [O | [Q | [O B']]].
+      * right. exists t. now rewrite kofP, Pt.
+      * left. now rewrite Eq.
+      * destruct (H11 B') as [Q | [o Ho]]; [left; now rewrite Eq | right]. exists o. rewrite kofP in *. rewrite Po; [exact Ho|].
         intros ->. rewrite Ps in Ho. congruence.
 Qed.
 
@@ -137,6 +147,7 @@ Proof.
   - intros B F. destruct (H5 B F) as [a Ha].
     destruct (agent_pc (t_pc s) (waiting w t)) eqn:L; [left; auto | right; eauto].
   - intros B. destruct (own (role_of (t_pc s))) eqn:O; [left; congruence | right; auto].
+  - intros B. destruct (own (role_of (t_pc s))) eqn:O; [left; congruence | right; right; auto].
 Qed.
 
 (* the enqueuer puts itself on the queue and sets its waiting flag *)
@@ -147,7 +158,7 @@ Lemma X_S2 w w' t s s' m l :
   waiting w' = fupd (waiting w) t true -> sem w' = sem w ->
   t_pc s = LsStoreWaiting m l -> t_pc s' = LsRelLoad m l -> xa t = false -> HX w'.
 Proof.
-  intros (H1 & H2 & H3 & H4 & H5 & H6 & H7 & H8 & H9 & H10) Ht Hs E Ex Eq It Ew Es Ep Ep' Xt.
+  intros (H1 & H2 & H3 & H4 & H5 & H6 & H7 & H8 & H9 & H10 & H11) Ht Hs E Ex Eq It Ew Es Ep Ep' Xt.
   destruct (upd_P w w' t s' Ht E) as [Pt Po].
   assert (P w t = t_pc s) as Ps by (unfold P; now rewrite Hs).
   assert ((exists a, agentx w a) -> exists a, agentx w' a) as AG.
@@ -172,10 +183,11 @@ Proof.
     destruct (H7 x Sx Wx) as [S | [(t' & m' & u & Pt') | V]]; [left; exact S | right; left | right; right; exact V].
     exists t', m', u. rewrite Po; [exact Pt'|]. intros ->. rewrite Ps, Ep in Pt'. discriminate Pt'.
   - intros x. rewrite Es. apply H8.
-  - split.
+  - split; [|split].
     + intros x. destruct (Nat.eq_dec x t) as [->|N]; [rewrite Pt, Ep'; split; exact I | rewrite Po by exact N; apply H9].
     + intros B. destruct (H10 B) as [[o Ho] | X]; [left | right; exact X]. exists o. rewrite kofP in *.
       destruct (Nat.eq_dec o t) as [->|N]; [rewrite Pt, Ep'; reflexivity | now rewrite Po].
+    + intros _. left. intros Eq0. rewrite Eq0 in It. destruct It.
 Qed.
 
 (* a successful semaphore P *)
@@ -185,7 +197,7 @@ Lemma X_P w w' t s s' m l :
   sem w' = fupd (sem w) t (sem w t - 1) -> 0 < sem w t ->
   t_pc s = LsSemP m l -> t_pc s' = LsWaitLoad m l -> xs t = false -> HX w'.
 Proof.
-  intros (H1 & H2 & H3 & H4 & H5 & H6 & H7 & H8 & H9 & H10) Ht Hs E Ex Eq Ew Es Hp Ep Ep' Xt.
+  intros (H1 & H2 & H3 & H4 & H5 & H6 & H7 & H8 & H9 & H10 & H11) Ht Hs E Ex Eq Ew Es Hp Ep Ep' Xt.
   destruct (upd_P w w' t s' Ht E) as [Pt Po].
   assert (P w t = t_pc s) as Ps by (unfold P; now rewrite Hs).
   assert ((exists a, agentx w a) -> exists a, agentx w' a) as AG.
@@ -208,9 +220,11 @@ Proof.
     destruct (H7 x Sx Wx) as [S | [(t' & m' & u & Pt') | V]]; [left; exact S | right; left | right; right; exact V].
     exists t', m', u. rewrite Po; [exact Pt'|]. intros ->. rewrite Ps, Ep in Pt'. discriminate Pt'.
   - intros x. rewrite Es. unfold fupd. destruct (Nat.eqb x t); [lia | apply H8].
-  - split.
+  - split; [|split].
     + intros x. destruct (Nat.eq_dec x t) as [->|N]; [rewrite Pt, Ep'; split; exact I | rewrite Po by exact N; apply H9].
     + intros B. destruct (H10 B) as [[o Ho] | X]; [left | right; exact X]. exists o. rewrite kofP in *.
+      destruct (Nat.eq_dec o t) as [->|N]; [rewrite Ps, Ep in Ho; discriminate Ho | now rewrite Po].
+    + intros B. destruct (H11 B) as [Q | [o Ho]]; [left; now rewrite Eq | right]. exists o. rewrite kofP in *.
       destruct (Nat.eq_dec o t) as [->|N]; [rewrite Ps, Ep in Ho; discriminate Ho | now rewrite Po].
 Qed.
 
@@ -222,7 +236,7 @@ Lemma X_S5 w w' t s s' m old u :
   (forall k, k = 2 \/ k = 5 \/ k = 6 \/ k = 7 -> Z.testbit (word w') k = Z.testbit (word w) k) ->
   t_pc s = UsCasSpin m old -> t_pc s' = UsRelLoad m u -> uslB u -> pcX (UsRelLoad m u) -> HX w'.
 Proof.
-  intros (H1 & H2 & H3 & H4 & H5 & H6 & H7 & H8 & H9 & H10) Ht Hs E Pq Ew Es Eb Ep Ep' Hu Hux.
+  intros (H1 & H2 & H3 & H4 & H5 & H6 & H7 & H8 & H9 & H10 & H11) Ht Hs E Pq Ew Es Eb Ep Ep' Hu Hux.
   destruct (upd_P w w' t s' Ht E) as [Pt Po].
   assert (P w t = t_pc s) as Ps by (unfold P; now rewrite Hs).
   assert (exists a, agentx w' a) as AG.
@@ -250,9 +264,10 @@ Proof.
     destruct (H7 x Sx0 Wx) as [S | [(t' & m' & u' & Pt') | V]]; [left; exact S | right; left | right; right; exact V].
     exists t', m', u'. rewrite Po; [exact Pt'|]. intros ->. rewrite Ps, Ep in Pt'. discriminate Pt'.
   - intros x. rewrite Es. apply H8.
-  - split.
+  - split; [|split].
     + intros x. destruct (Nat.eq_dec x t) as [->|N]; [rewrite Pt, Ep'; split; [exact Hu | exact Hux] | rewrite Po by exact N; apply H9].
     + intros _. left. exists t. rewrite kofP, Pt, Ep'. reflexivity.
+    + intros _. right. exists t. rewrite kofP, Pt, Ep'. reflexivity.
 Qed.
 
 (* the waker clears the waiting flag of the next waiter on its list *)
@@ -263,7 +278,7 @@ Lemma X_S7 w w' t s s' m u u' p :
   t_pc s = UsWakeStore m u -> wake u = p :: wake u' -> t_pc s' = UsWakeV m p u' ->
   (isq (kof w p) = true \/ xa p = true) -> HX w'.
 Proof.
-  intros (H1 & H2 & H3 & H4 & H5 & H6 & H7 & H8 & H9 & H10) Ht Hs E Ex Eq Ew Es Ep Eu Ep' Ip.
+  intros (H1 & H2 & H3 & H4 & H5 & H6 & H7 & H8 & H9 & H10 & H11) Ht Hs E Ex Eq Ew Es Ep Eu Ep' Ip.
   destruct (upd_P w w' t s' Ht E) as [Pt Po].
   assert (P w t = t_pc s) as Ps by (unfold P; now rewrite Hs).
   assert (exists a, agentx w' a) as AG.
@@ -295,9 +310,11 @@ Proof.
     destruct (H7 x Sx0 Wx) as [S | [(t' & m' & u0 & Pt') | V]]; [left; exact S | right; left | right; right; exact V].
     exists t', m', u0. rewrite Po; [exact Pt'|]. intros ->. rewrite Ps, Ep in Pt'. discriminate Pt'.
   - intros x. rewrite Es. apply H8.
-  - split.
+  - split; [|split].
     + intros x. destruct (Nat.eq_dec x t) as [->|N]; [rewrite Pt, Ep'; split; exact I | rewrite Po by exact N; apply H9].
     + intros B. destruct (H10 B) as [[o Ho] | X]; [left | right; exact X]. exists o. rewrite kofP in *.
+      destruct (Nat.eq_dec o t) as [->|N]; [rewrite Ps, Ep in Ho; discriminate Ho | now rewrite Po].
+    + intros B. destruct (H11 B) as [Q | [o Ho]]; [left; now rewrite Eq | right]. exists o. rewrite kofP in *.
       destruct (Nat.eq_dec o t) as [->|N]; [rewrite Ps, Ep in Ho; discriminate Ho | now rewrite Po].
 Qed.
 
@@ -308,7 +325,7 @@ Lemma X_S8 w w' t s s' m u p :
   waiting w' = waiting w -> sem w' = fupd (sem w) p (sem w p + 1) ->
   t_pc s = UsWakeV m p u -> t_pc s' = match wake u with [] => Idle | _ => UsWakeStore m u end -> HX w'.
 Proof.
-  intros (H1 & H2 & H3 & H4 & H5 & H6 & H7 & H8 & H9 & H10) Ht Hs E Ex Eq Ew Es Ep Ep'.
+  intros (H1 & H2 & H3 & H4 & H5 & H6 & H7 & H8 & H9 & H10 & H11) Ht Hs E Ex Eq Ew Es Ep Ep'.
   destruct (upd_P w w' t s' Ht E) as [Pt Po].
   assert (P w t = t_pc s) as Ps by (unfold P; now rewrite Hs).
   assert (forall y, kof w' y = kof w y) as K.
@@ -341,10 +358,12 @@ Proof.
       * right; left. exists t', m', u0. now rewrite Po.
     + right; right; exact V.
   - intros x. specialize (SM x). specialize (H8 x). lia.
-  - split.
+  - split; [|split].
     + intros x. destruct (Nat.eq_dec x t) as [->|N]; [|rewrite Po by exact N; apply H9].
       rewrite Pt, Ep'. destruct (wake u) eqn:Eu; cbn [pcB pcX]; [split; exact I | rewrite Eu; split; [discriminate | exact I]].
     + intros B. destruct (H10 B) as [[o Ho] | X]; [left | right; exact X]. exists o. rewrite kofP in *.
+      destruct (Nat.eq_dec o t) as [->|N]; [rewrite Ps, Ep in Ho; discriminate Ho | now rewrite Po].
+    + intros B. destruct (H11 B) as [Q | [o Ho]]; [left; now rewrite Eq | right]. exists o. rewrite kofP in *.
       destruct (Nat.eq_dec o t) as [->|N]; [rewrite Ps, Ep in Ho; discriminate Ho | now rewrite Po].
 Qed.
 
@@ -363,9 +382,10 @@ Lemma XG_clear w w' t s s' c :
   (sp (t_pc s') = true -> waiting w t = true \/ sp (t_pc s) = true) ->
   (forall m x u, t_pc s <> UsWakeV m x u) ->
   pcB (t_pc s') -> pcX (t_pc s') ->
-  (own (role_of (t_pc s)) = true -> Z.testbit c 1 = true \/ own (role_of (t_pc s')) = true) -> HX w'.
+  (own (role_of (t_pc s)) = true -> Z.testbit c 1 = true \/ own (role_of (t_pc s')) = true) ->
+  (own (role_of (t_pc s)) = true -> own (role_of (t_pc s')) = true \/ queue w <> []) -> HX w'.
 Proof.
-  intros HH Ht Hs E Eq Ew Es FB C2 CL CA C5 C6 C6' C7 C7' C9 C9x CO.
+  intros HH Ht Hs E Eq Ew Es FB C2 CL CA C5 C6 C6' C7 C7' C9 C9x CO CQ.
   pose proof HH as (H1 & H2 & H3 & H4 & H5 & _).
   apply (XG w w' t s s'); try assumption.
   - rewrite FB, H1 by lia. reflexivity.
@@ -381,6 +401,9 @@ Proof.
   - rewrite FB by lia. intros B. apply andb_true_iff in B. destruct B as [B B'].
     destruct (own (role_of (t_pc s))) eqn:O; [|right; auto].
     destruct (CO eq_refl) as [X | X]; [rewrite X in B'; discriminate B' | now left].
+  - rewrite FB by lia. intros B. apply andb_true_iff in B. destruct B as [B _].
+    destruct (own (role_of (t_pc s))) eqn:O; [|right; right; auto].
+    destruct (CQ eq_refl) as [X | X]; [now left | right; now left].
 Qed.
 
 (* with the lock free and the spinlock free, a long waiter is (or is in the hands of) an agent *)
@@ -388,7 +411,7 @@ Lemma lw_gives_agentx w T :
   (forall o, own (kof w o) = true -> tb1 (word w) = true) -> (queue w <> [] -> Z.testbit (word w) 2 = true) ->
   HX w -> tb1 (word w) = false -> free (word w) -> lw_pc (P w T) = true -> exists a, agentx w a.
 Proof.
-  intros B1 Q5a (H1 & H2 & H3 & H4 & H5 & H6 & H7 & H8 & H9 & H10) S F L.
+  intros B1 Q5a (H1 & H2 & H3 & H4 & H5 & H6 & H7 & H8 & H9 & H10 & H11) S F L.
   assert (own (kof w T) = true -> False) as NO.
   { intros O. apply B1 in O. congruence. }
   specialize (H9 T). destruct H9 as [H9 _]. pose proof (H6 T) as H6T. rewrite kofP in *.
@@ -443,7 +466,7 @@ Ltac x_clear HH Ht Hs c :=
   | cbn [t_pc lw_pc lsl_of] | cbn [t_pc agent_pc] | cbn [word t_pc agent_pc]; intros B2 F
   | cbn [t_pc role_of wl] | cbn [t_pc role_of isq]
   | cbn [t_pc sp]; intros EE; try discriminate EE | cbn [t_pc]; intros ? ? ? EE; try discriminate EE
-  | cbn [t_pc pcB] | cbn [t_pc pcX] | cbn [t_pc role_of own] ]; finx.
+  | cbn [t_pc pcB] | cbn [t_pc pcX] | cbn [t_pc role_of own] | cbn [t_pc role_of own] ]; finx.
 
 Ltac x_gen HH Ht Hs :=
   eapply XG;
@@ -451,7 +474,7 @@ Ltac x_gen HH Ht Hs :=
   | cbn [word] | cbn [word] | cbn [word t_pc lw_pc lsl_of] | cbn [word t_pc agent_pc] | cbn [word t_pc agent_pc]
   | cbn [t_pc role_of wl] | cbn [t_pc role_of isq]
   | cbn [t_pc sp]; intros EE; try discriminate EE | cbn [t_pc]; intros ? ? ? EE; try discriminate EE
-  | cbn [t_pc pcB] | cbn [t_pc pcX] | cbn [word t_pc role_of own] ].
+  | cbn [t_pc pcB] | cbn [t_pc pcX] | cbn [word t_pc role_of own] | cbn [word t_pc role_of own] ].
 
 Section FlagsStep.
 Variables (xa xs : nat -> bool) (xv : nat -> option nat) (xo : nat -> bool).
@@ -474,17 +497,18 @@ Lemma step_hx_core w t : begin_op w t = w -> (t < length (thr w))%nat -> Inv n w
   (forall o, own (kof w o) = true -> tb1 (word w) = true) ->
   (queue w <> [] -> Z.testbit (word w) 2 = true) ->
   (forall cw, rel (kof w t) = Some cw -> (cw = true <-> queue w = [])) ->
+  (lsr (kof w t) = true -> In t (queue w)) ->
   (forall p, In p (wl (kof w t)) -> isq (kof w p) = true \/ xa p = true) ->
   pcA' (P w t) ->
   (forall m l, P w t = LsStoreWaiting m l -> xa t = false) ->
   (sp (P w t) = true -> xs t = false) ->
   HXf (fst (step w t)).
 Proof.
-  intros HB Ht H0 HH HB1 HQ5 HC HW HA HSx HSs. unfold step. rewrite HB. cbv zeta.
+  intros HB Ht H0 HH HB1 HQ5 HC HEl HW HA HSx HSs. unfold step. rewrite HB. cbv zeta.
   pose proof H0 as (Hlen & (Rw & _ & _ & HXw) & Hok). specialize (Hok t).
   pose proof (Inv_readers n Hn w H0) as Dw.
   pose proof (Inv_held n w t) as Hheld. specialize (fun m => Hheld m H0).
-  pose proof HH as (H1 & H2 & H3 & H4 & H5 & H6 & H7 & H8 & H9 & H10). specialize (H9 t). unfold P in H9.
+  pose proof HH as (H1 & H2 & H3 & H4 & H5 & H6 & H7 & H8 & H9 & H10 & H11). specialize (H9 t). unfold P in H9.
   destruct H9 as [H9 H9x].
   destruct (get w t) as [p ops h sl lt] eqn:Hs.
   pose proof Hs as Hs'. unfold get in Hs'. rewrite Hs' in Hok.
@@ -565,6 +589,7 @@ Proof.
            ++ elim (enq_guard_woken m (word w) Rw F0 G2).
         -- exfalso. rewrite (LB2 Ec) in G2. exact (enq_guard_woken m (word w) Rw F0 G2).
       * intros _. left. reflexivity.
+      * intros _. left. reflexivity.
     + x_local HH Ht Hs. split; assumption.
   - (* LsStoreWaiting *) cbn [fst]. normt Hs' Ht.
     eapply X_S2 with (m := m) (l := l);
@@ -582,6 +607,7 @@ Proof.
         { destruct (release_spinlock_SL (word w) Rw) as (_ & M & D). destruct F as [F1 F2]. split; lia. }
         destruct (negb (waiting w t)); [now left | right; split; [reflexivity | apply H5; assumption]].
       * intros _. left. reflexivity.
+      * intros _. right. intros Eq0. rewrite Kp in HEl. specialize (HEl eq_refl). rewrite Eq0 in HEl. destruct HEl.
     + x_local HH Ht Hs.
   - (* LsWaitLoad *) destruct Hok as (_ & Hl). destruct (waiting w t) eqn:Ew; cbn [fst]; normt Hs' Ht.
     + x_local HH Ht Hs. left. exact Ew.
@@ -651,6 +677,7 @@ Proof.
         -- rewrite fb_unlock_slow_cas3 by (auto; lia). rewrite X3, andb_false_r. discriminate.
         -- rewrite fb_unlock_slow_cas3 by (auto; lia). rewrite X2, andb_false_r. discriminate.
         -- rewrite fb_unlock_slow_cas3 by (auto; lia). unfold tb1 in C1. rewrite C1, andb_false_r. discriminate.
+        -- rewrite fb_unlock_slow_cas3 by (auto; lia). rewrite (U25 X2), andb_false_r. discriminate.
       * x_gen HH Ht Hs; finx.
         -- rewrite fb_unlock_slow_cas3 by (auto; lia). rewrite U7. apply andb_false_r.
         -- rewrite !fb_unlock_slow_cas3 by (auto; lia). intros B. apply andb_true_iff in B. destruct B as [B B'].
@@ -665,6 +692,9 @@ Proof.
         -- intros _. left. rewrite Ew. reflexivity.
         -- intros _ _. left. rewrite Ew. reflexivity.
         -- rewrite fb_unlock_slow_cas3 by (auto; lia). unfold tb1 in C1. rewrite C1, andb_false_r. discriminate.
+        -- rewrite fb_unlock_slow_cas3 by (auto; lia). intros B. apply andb_true_iff in B. destruct B as [_ B'].
+           right; left. intros Eq0. specialize (HC (tb2 (clear_on u))). rewrite Kt in HC.
+           apply (proj2 (HC eq_refl)) in Eq0. unfold tb2 in Eq0. rewrite (U25 Eq0) in B'. discriminate B'.
     + x_local HH Ht Hs. exact H9x.
   - (* UsWakeStore *) destruct (wake u) as [|p rest] eqn:Ew; [now elim H9|]. cbn [fst]. normt Hs' Ht.
     eapply X_S7 with (m := m) (u := u) (p := p) (u' := mk_usl rest (set_on u) (clear_on u) (late u));
@@ -700,13 +730,14 @@ Lemma step_hx w t : Inv n w -> HXf w ->
   (forall o, own (kof w o) = true -> tb1 (word w) = true) ->
   (queue w <> [] -> Z.testbit (word w) 2 = true) ->
   (forall cw, rel (kof w t) = Some cw -> (cw = true <-> queue w = [])) ->
+  (lsr (kof w t) = true -> In t (queue w)) ->
   (forall p, In p (wl (kof w t)) -> isq (kof w p) = true \/ xa p = true) ->
   pcA' (P w t) ->
   (forall m l, P w t = LsStoreWaiting m l -> xa t = false) ->
   (sp (P w t) = true -> xs t = false) ->
   HXf (fst (step w t)).
 Proof.
-  intros H0 HH HB1 HQ5 HC HW HA HSx HSs.
+  intros H0 HH HB1 HQ5 HC HEl HW HA HSx HSs.
   destruct (Nat.lt_ge_cases t (length (thr w))) as [L|G].
   2:{ assert (step w t = (w, EvNone)) as ->; [|exact HH].
       unfold step, begin_op. cbv zeta. rewrite (get_oob _ _ G). cbn [t_pc t_ops dflt_t]. rewrite (get_oob _ _ G). reflexivity. }
@@ -719,6 +750,7 @@ Proof.
   - intros o. rewrite begin_op_kof, begin_op_word. apply HB1.
   - rewrite begin_op_queue, begin_op_word. exact HQ5.
   - intros cw. rewrite begin_op_kof, begin_op_queue. apply HC.
+  - rewrite begin_op_kof, begin_op_queue. apply HEl.
   - intros p. rewrite !begin_op_kof. apply HW.
   - destruct (role_begin w t) as [_ X]. apply X, HA.
   - intros m l E. destruct (begin_op_cases w t) as [B | [_ S]]; [rewrite B in E; eauto | rewrite E in S; destruct S].
@@ -776,19 +808,20 @@ Lemma HX_frame xa xs xv xo w xa' xs' xv' xo' w' :
   (Z.testbit (word w') 2 = true -> free (word w') -> Z.testbit (word w) 2 = true /\ free (word w)) ->
   (Z.testbit (word w') 1 = true ->
      (Z.testbit (word w) 1 = true /\ forall o, xo o = true -> xo' o = true) \/ exists o, xo' o = true) ->
+  (Z.testbit (word w') 5 = true -> Z.testbit (word w) 5 = true \/ queue w' <> []) ->
   (forall a, agentx xa w a -> agentx xa' w' a) ->
   incl (queue w) (queue w') ->
   (forall x, isq (kof w x) = true -> waiting w' x = true -> waiting w x = true) ->
   H7c xs' xv' w' -> (forall x, 0 <= sem w' x) ->
   HX xa' xs' xv' xo' w'.
 Proof.
-  intros (H1 & H2 & H3 & H4 & H5 & H6 & H7 & H8 & H9 & H10) FP C1 C2 C3 C4 C5 C10 CA Cq Cw C7 C8.
+  intros (H1 & H2 & H3 & H4 & H5 & H6 & H7 & H8 & H9 & H10 & H11) FP C1 C2 C3 C4 C5 C10 C11 CA Cq Cw C7 C8.
   assert (forall x, P w x <> Idle -> P w' x = P w x) as FN.
   { intros x N. destruct (FP x) as [E | [E _]]; [exact E | contradiction]. }
   assert (forall x, kof w' x = kof w x) as FK.
   { intros x. rewrite !kofP. destruct (FP x) as [-> | [E S]]; [reflexivity|].
     rewrite E. destruct (entered_facts _ S) as (_ & _ & _ & -> & _). reflexivity. }
-  split; [exact C1|]. split; [exact C2|]. split; [|split; [|split; [|split; [|split; [|split; [|split]]]]]].
+  split; [exact C1|]. split; [exact C2|]. split; [|split; [|split; [|split; [|split; [|split; [|split; [|split]]]]]]].
   - intros B. destruct (H3 (C3 B)) as [T HT]. exists T. rewrite FN; [exact HT|]. intros E. rewrite E in HT. discriminate HT.
   - intros B. destruct (H4 (C4 B)) as [a Ha]. exists a. apply CA, Ha.
   - intros B F. destruct (C5 B F) as [B' F']. destruct (H5 B' F') as [a Ha]. exists a. apply CA, Ha.
@@ -799,6 +832,9 @@ Proof.
   - intros x. destruct (FP x) as [-> | [_ S]]; [apply H9|]. destruct (entered_facts _ S) as (_ & a & b & _). auto.
   - intros B. destruct (C10 B) as [[B' Xo] | X]; [|right; exact X].
     destruct (H10 B') as [[o Ho] | [o Ho]]; [left; exists o; now rewrite FK | right; exists o; auto].
+  - intros B. destruct (C11 B) as [B' | Q]; [|left; exact Q].
+    destruct (H11 B') as [Q | [o Ho]]; [left | right; exists o; now rewrite FK].
+    intros E. destruct (queue w) as [|x q0]; [now apply Q|]. specialize (Cq x ltac:(now left)). rewrite E in Cq. destruct Cq.
 Qed.
 
 (* only the flags change, pointwise equal *)
@@ -808,7 +844,7 @@ Lemma HX_ext xa xs xv xo w xa' xs' xv' xo' : HX xa xs xv xo w ->
 Proof.
   intros HH Ea Es Ev Eo. pose proof (HX_H7 _ _ _ _ _ HH) as [H7 H8].
   pose proof HH as (H1 & H2 & _).
-  apply (HX_frame xa xs xv xo w); [exact HH | intros x; now left | exact H1 | exact H2 | auto | auto | auto | | | apply incl_refl | auto | | exact H8].
+  apply (HX_frame xa xs xv xo w); [exact HH | intros x; now left | exact H1 | exact H2 | auto | auto | auto | | auto | | apply incl_refl | auto | | exact H8].
   - intros B. left. split; [exact B|]. intros o. now rewrite Eo.
   - intros a [A | [A B]]; [left; exact A | right; split; [now rewrite Ea | exact B]].
   - intros x Sx Wx. destruct Sx as [Sx | Sx]; [|rewrite Es in Sx];
